@@ -38,7 +38,7 @@ OwnerT == IF Ln.ok = "rl" THEN RL(Ln.b) ELSE HT(Ln.oa)
 
 Logged ==
   \/ Is("Disp") /\ ~Ln.fw /\ Ln.act # 0 /\ nev + 1 = Ln.e /\ task[HT(Ln.act)].pc # "sync" /\ HDispatch(Ln.act, Ln.b, Ln.ty) /\ Last(o'.disp).out = Ln.out
-  \/ Is("Disp") /\ ~Ln.fw /\ Ln.act = 0 /\ nev + 1 = Ln.e /\ DDispatch(Ln.drv, Ln.b, Ln.ty) /\ Last(o'.disp).out = Ln.out
+  \/ Is("Disp") /\ ~Ln.fw /\ Ln.act = 0 /\ nev + 1 = Ln.e /\ DDispatchN(Ln.drv, Ln.b, Ln.ty, Ln.n) /\ Last(o'.disp).out = Ln.out
   \/ Is("Disp") /\ Ln.fw /\ \E t \in Tasks : /\ task[t].fe = Ln.e /\ task[t].todo # <<>> /\ Head(task[t].todo).kind = "fwd"
                                             /\ Head(task[t].todo).to = Ln.b /\ OwnerNext(t) /\ Last(o'.disp).out = Ln.out
   \/ Is("ProcB") /\ Ln.ok = "rl" /\ task[RL(Ln.b)].e = Ln.e /\ (RLBegin(Ln.b) \/ RLGranted(Ln.b)) /\ task'[RL(Ln.b)].pc = "pb0"
@@ -69,6 +69,9 @@ Logged ==
   \/ Is("Wal") /\ \E t \in Tasks : task[t].fb = Ln.b /\ task[t].fe = Ln.e /\ WalWrite(t, FALSE)
   \/ Is("WalFault") /\ Ln.at = "write" /\ \E t \in Tasks : task[t].fb = Ln.b /\ task[t].fe = Ln.e /\ WalWrite(t, TRUE)
   \/ Is("WalFault") /\ Ln.at = "open" /\ \E t \in Tasks : task[t].fb = Ln.b /\ task[t].fe = Ln.e /\ WalOpen(t, TRUE)
+  \/ Is("ExpB") /\ Ln.x = Len(xh) + 1 /\ DExpectBegin(Ln.d, Ln.b, Ln.ty, Ln.inc, Ln.exc, Ln.tmo >= 0)
+  \/ Is("ExpE") /\ task[DT(Ln.d)].e = Ln.x /\ Ln.err = "" /\ DExpectEnd(Ln.d, FALSE) /\ xh[Ln.x].e = Ln.e
+  \/ Is("ExpE") /\ task[DT(Ln.d)].e = Ln.x /\ Ln.err = "Timeout" /\ DExpectEnd(Ln.d, TRUE)
   \/ Is("StopB") /\ Ln.tmo <= 0 /\ DStopBegin(Ln.d, Ln.b)
   \/ Is("StopE") /\ task[DT(Ln.d)].b = Ln.b /\ (DStopGo(Ln.d) \/ DStopWaitEnd(Ln.d)) /\ task'[DT(Ln.d)].pc = "run"
   \/ Is("CancelRL") /\ DCancelRL(Ln.d, Ln.b)
@@ -77,7 +80,8 @@ Logged ==
 Counted ==   \* silent steps that change the state
   \/ \E b \in B : RLStart(b) \/ RLTake(b) \/ RLPollIdle(b) \/ (RLBegin(b) /\ task'[RL(b)].pc = "lockwait")
   \/ \E b \in B : RLDrop(b) \/ RLPollExit(b) \/ RLDie(b) \/ RLShutExit(b) \/ RLDieLocked(b) \/ RLTakeDying(b)
-  \/ \E i \in 1..NDrv : DStopGo(i) /\ task'[DT(i)].pc = "stop_wait"
+  \/ \E i \in 1..NDrv : (DStopGo(i) /\ task'[DT(i)].pc = "stop_wait") \/ DExpectGo(i)
+  \/ \E t \in Tasks : task[t].todo # <<>> /\ Head(task[t].todo).kind = "exp" /\ OwnerNext(t)
   \/ \E t \in Tasks : (ProcSelect(t) /\ task'[t].pc = "pb") \/ (OwnerNext(t) /\ task'[t].pc = "waith") \/ OwnerResume(t) \/ OwnerEpilogue(t) \/ OwnerAbort(t) \/ FwdReturn(t) \/ SyncReturn(t) \/ ParStart(t) \/ TimeoutFire(t) \/ WalBegin(t) \/ WalOpen(t, FALSE) \/ WalClose(t)
   \/ \E k \in 1..MaxAct : XStart(k) \/ XEnd(k)
   \/ \E a \in 1..MaxAct : HSuspend(a, "yield") \/ HSuspend(a, "sleep")
